@@ -90,23 +90,26 @@ fn report(run: &Run, p: Prof, s: &str) {
 pub fn run(run: &Run) {
     run.set_rule(
         "Generator: (a) every Unicode scalar value c as the one-character string c and as a c a (interior), and preceded by a combining-friendly base \
-         (a c U+0301), for all four profiles; (b) proptest valid-biased strings heavy in cased characters and composing sequences per profile. Oracle: \
+         (a c U+0301), and behind 51 characters of padding, for all four profiles; (b) proptest valid-biased strings heavy in cased characters and composing sequences per profile. Oracle: \
          for every Ok(e): no code point of e is DISALLOWED/UNASSIGNED by my RFC 8264 recomputation over UCD 6.3.0 nor by the class's own \
          get_value_from_char; enforce(e) is Ok(e) or an error. Non-trivial: enforce accepted and changed the string; distinct = distinct (profile,input).",
     );
     run.assume("K2 (Cherokee letters U+13A0..U+13F4 are lowercased by UsernameCaseMapped to code points unassigned in Unicode 6.3.0) is a listed known finding, matched only for that profile, that source range and an UNASSIGNED target");
-    run.par("all_scalars_3_templates", true, |tid, n, l| {
+    let pad_a = crate::gens::pad(4, 5); // 17 x "abé"
+    let pad_a = &pad_a;
+    run.par("all_scalars_4_templates", true, |tid, n, l| {
         let mut cp = tid as u32;
         while cp < 0x110000 {
             if let Some(c) = char::from_u32(cp) {
                 if cp % 4096 == 0 && run.stopped() {
                     return;
                 }
-                for t in 0..3 {
+                for t in 0..4 {
                     let s = match t {
                         0 => format!("{c}"),
                         1 => format!("a{c}a"),
-                        _ => format!("a{c}\u{301}"),
+                        2 => format!("a{c}\u{301}"),
+                        _ => format!("{}{c}", pad_a),
                     };
                     for p in PROFS {
                         l.cases += 1;
@@ -119,6 +122,16 @@ pub fn run(run: &Run) {
             }
             cp += n as u32;
         }
+    });
+    let pl: Vec<&str> = PAYLOADS_SPACE.iter().chain(PAYLOADS_FREE.iter()).chain(PAYLOADS_USER.iter()).copied().collect();
+    stress(run, "alignment_and_runs", &pl, &|s, l| {
+        for p in PROFS {
+            if check(run, p, s, l).is_err() {
+                report(run, p, s);
+                return false;
+            }
+        }
+        true
     });
     run.prop("random", run.pick(1_500_000, 60_000_000), || (0..4usize).prop_flat_map(|pi| (strings_for(PROFS[pi]), Just(pi))), |(s, pi), l| check(run, PROFS[*pi], s, l));
 }
